@@ -12,20 +12,25 @@ latin-1 string, expected table from Python's csv.reader on the blank-normalised 
             through parsers.read_csv_with_schema_dict (production budgets field_size*chunk_row_size); with 'offs' the
             driver is called directly with those column_offsets (tight budgets: regrowth, passes that commit no record).
             Model: Model/CsvTyped.v (generic driver + the importer models of Model/Transform.v).
+  op='imp'  (TC05) importer.import_with_schema: SEVERAL tables ('tables': [{'name','hdr','tab','style','nl','eol','sch'}])
+            imported by one call from a schema file holding the tables 'keys', with per-table include / exclude
+            dictionaries 'inc' / 'exc' = None | [[table, [field, ...]], ...] that may name only some of the tables.
+            Result: per table of `files`, in order, [rows, [[field name, indices, values] per field created]].
+            Model: Model/CsvImport.v (importer.py:66-111 on top of Csv.read_csv).
 Canonical result: [rows, [[indices, values] per imported column]]; a typed column is [data] (fix, cat),
 [codes, freetext indices, freetext values] (leaky) or [values, flags] (bool, int; flags = [] in strict mode).
 """
 import os, io, csv, json, itertools
 
 PROP, NUM = 'C05', 5
-PROPS_FILES = ['Props/C05.v', 'Props/C05Typed.v']
+PROPS_FILES = ['Props/C05.v', 'Props/C05Typed.v', 'Props/C05Import.v']
 MODES = ['jit', 'nojit']
 MODES_THOROUGH = ['jit', 'nojit', 'bounds']
 LEVEL = 'proof'
 TIMEOUT_S = 30.0
 EXHAUSTIVE = {'quick': True, 'thorough': True}
 
-_np = _C = _P = _FI = _S = None
+_np = _C = _P = _FI = _S = _IM = None
 _ds = _tmp = None
 _n = [0]
 
@@ -327,6 +332,9 @@ def setup():
     from exetera.io import parsers as P
     from exetera.io import field_importers as FI
     from exetera.core.session import Session
+    from exetera.io import importer as IM
+    global _IM
+    _IM = IM
     _np, _C, _P, _FI = np, C, P, FI
     _S = Session()
     _ds = _S.open_dataset(io.BytesIO(), 'w', 'ds')
@@ -430,8 +438,65 @@ def _run_typed(case, path):
         del _ds[name]
 
 
+def imp_text(t):
+    return render(t['hdr'], t['tab'], t.get('style', 'min'), t.get('nl', True), t.get('eol', '\n'))
+
+
+def imp_names(t):
+    return [k.strip() for k in t['hdr']]
+
+
+def imp_schema_json(case):
+    sch = {}
+    for key in case['keys']:
+        tt = [t for t in case['tables'] if t['name'] == key]
+        fields = (tt[0].get('sch') if tt and tt[0].get('sch') is not None else imp_names(tt[0])) if tt else ['zz']
+        sch[key] = {'primary_keys': [], 'fields': {_u(k): {'field_type': 'string'} for k in fields}}
+    return json.dumps({'exetera': {'version': '1.0.0'}, 'schema': sch})
+
+
+def _u(k):
+    """wire strings are latin-1 images of the UTF-8 bytes; the library gets the text"""
+    return k.encode('latin-1').decode('utf-8')
+
+
+def _run_imp(case):
+    _n[0] += 1
+    alias = 'imp%d_%d' % (os.getpid(), _n[0])
+    files = {}
+    for i, t in enumerate(case['tables']):
+        path = os.path.join(_tmp, 'i%d_%d.csv' % (os.getpid(), i))
+        with open(path, 'wb') as f:
+            f.write(imp_text(t).encode('latin-1'))
+        files[t['name']] = path
+    dct = lambda d: None if d is None else {k: [_u(x) for x in v] for k, v in d}
+    try:
+        _IM.import_with_schema(_S, io.BytesIO(), alias, io.StringIO(imp_schema_json(case)), files, False,
+                               dct(case.get('inc')), dct(case.get('exc')), '2020-01-01 00:00:00+00:00',
+                               chunk_row_size=case['crs'])
+        ds = _S.get_dataset(alias)
+        out = []
+        if sorted(ds.keys()) != sorted(files):
+            return ['TABLES', sorted(ds.keys())]
+        for t in case['tables']:
+            df = ds[t['name']]
+            if 'j_valid_from' not in df or 'j_valid_to' not in df:
+                return ['NO-J-VALID', t['name']]
+            rows = len(df['j_valid_from'].data)
+            if len(df['j_valid_to'].data) != rows:
+                return ['J-VALID-LENGTHS', t['name']]
+            cols = [[list(k.encode('utf-8')), df[k].indices[:].tolist(), df[k].values[:].tolist()]
+                    for k in df.keys() if k not in ('j_valid_from', 'j_valid_to')]
+            out.append([rows, cols])
+        return out
+    finally:
+        _S.close_dataset(alias)
+
+
 def _run(case):
     np = _np
+    if case['op'] == 'imp':
+        return _run_imp(case)
     path = os.path.join(_tmp, 'f%d.csv' % os.getpid())
     with open(path, 'wb') as f:
         f.write(text_of(case).encode('latin-1'))
@@ -487,7 +552,74 @@ def def_val(d):
     return [5, lo, hi, d[3], list(str(d[2]).encode()), d[2]]
 
 
+def imp_to_val(case):
+    dct = lambda d: [] if d is None else [[[_b(k), [_b(x) for x in v]] for k, v in d]]
+    tabs = []
+    for t in case['tables']:
+        names = imp_names(t)
+        sch = t.get('sch') if t.get('sch') is not None else names
+        tabs.append([_b(t['name']), _b(imp_text(t)), [_b(k) for k in names], [10] * len(names), [_b(k) for k in sch]])
+    return [5, case['crs'], [_b(k) for k in case['keys']], tabs, dct(case.get('inc')), dct(case.get('exc'))]
+
+
+def imp_wellformed(case):
+    """a call the property speaks about: every table has a schema, the dictionaries name only imported tables and
+    only columns of the table they name, every table's window holds its header plus its longest record"""
+    tabs = case['tables']
+    tnames = [t['name'] for t in tabs]
+    if not tabs or any(n not in case['keys'] for n in tnames):
+        return False
+    for t in tabs:
+        names = imp_names(t)
+        if any(k in ('j_valid_from', 'j_valid_to') for k in (t.get('sch') if t.get('sch') is not None else names)):
+            return False
+        rl = record_lengths(imp_text(t))
+        if not rl or 2 * case['crs'] * len(names) < rl[0] + max(rl[1:] or [0]):
+            return False
+    for d in (case.get('inc'), case.get('exc')):
+        for k, v in (d or []):
+            if k not in tnames:
+                return False
+            names = imp_names(tabs[tnames.index(k)])
+            if any(x not in names for x in v):
+                return False
+    return True
+
+
+def imp_expected(case):
+    """the property's promise, from the tables and the dictionaries alone (None: not a call it speaks about)"""
+    if not imp_wellformed(case):
+        return None
+    inc = None if case.get('inc') is None else {k: v for k, v in case['inc']}
+    exc = None if case.get('exc') is None else {k: v for k, v in case['exc']}
+    out = []
+    for t in case['tables']:
+        names = imp_names(t)
+        want = list(range(len(names)))
+        if inc is not None and t['name'] in inc:
+            want = [j for j in want if names[j] in inc[t['name']]]
+        if exc is not None and t['name'] in exc:
+            want = [j for j in want if names[j] not in exc[t['name']]]
+        rows, cols = enc_cols(t['tab'], want)
+        out.append([rows, [[_b(names[j])] + c for j, c in zip(want, cols)]])
+    return out
+
+
+def imp_from_val(case, v):
+    from harness import core
+    if v and v[0] == -1:
+        model = core.decode_err([core.ERR_TAG, v[1], v[2]])
+    else:
+        model = ['IMP', [[t[1], [[nm] + col for nm, col in zip(t[0], t[2])]] for t in v], [t[3] for t in v]]
+    exp = imp_expected(case)
+    if exp is None:
+        return model
+    return (model, ['IMP', exp])
+
+
 def to_val(case):
+    if case['op'] == 'imp':
+        return imp_to_val(case)
     file = _b(text_of(case))
     opt = lambda x: [] if x is None else [[_b(k) for k in x]]
     if case['op'] == 'drv':
@@ -505,6 +637,8 @@ def to_val(case):
 
 def from_val(case, v):
     from harness import core
+    if case['op'] == 'imp':
+        return imp_from_val(case, v)
     if v[0] == -1:
         model = core.decode_err([core.ERR_TAG, v[1], v[2]])
     else:
@@ -531,13 +665,56 @@ def from_val(case, v):
 
 def equal(case, impl, expected, mode):
     from harness import core
+    if isinstance(expected, list) and expected and expected[0] == 'IMP':
+        return impl == expected[1]
     if isinstance(expected, list):
         return impl == expected[:2]
     return core.results_equal(impl, expected, mode)
 
 
 # ----------------------------------------------------------------------------- features
+def imp_features(case, model):
+    f = ['op:imp', 'in-regime' if imp_wellformed(case) else 'malformed-or-unsupported(model-vs-impl only)']
+    if isinstance(model, str):
+        f.append('err:' + model.split(':')[0])
+        return f
+    tabs = case['tables']
+    tn = [t['name'] for t in tabs]
+    f.append('imp:tables=%d' % len(tabs) if len(tabs) < 4 else 'imp:tables>=4')
+    for nm, d in (('include', case.get('inc')), ('exclude', case.get('exc'))):
+        if d is None:
+            f.append('imp:%s=None' % nm); continue
+        if not d:
+            f.append('imp:%s={}' % nm); continue
+        named = [k for k, _ in d]
+        if any(n not in named for n in tn):
+            f.append('imp:%s-dict-names-only-some-tables' % nm)
+        else:
+            f.append('imp:%s-dict-names-every-table' % nm)
+        if any(not v for _, v in d): f.append('imp:%s-list-empty' % nm)
+        if len(named) >= 2: f.append('imp:%s-dict-names>=2-tables' % nm)
+    if case.get('inc') and case.get('exc'):
+        a, b = set(k for k, _ in case['inc']), set(k for k, _ in case['exc'])
+        if a & b: f.append('imp:table-in-include-and-exclude')
+        if a - b and b - a: f.append('imp:one-table-included-another-excluded')
+        if set(tn) - a - b: f.append('imp:table-named-by-neither-dictionary')
+    if len(set(k for t in tabs for k in imp_names(t))) < sum(len(t['hdr']) for t in tabs):
+        f.append('imp:same-column-name-in-two-tables')
+    if any(k not in tn for k in case['keys']): f.append('imp:schema-has-a-table-that-is-not-imported')
+    if [k for k in case['keys'] if k in tn] != tn: f.append('imp:files-order-differs-from-schema-order')
+    if any(t.get('sch') is not None and len(t['sch']) < len(t['hdr']) for t in tabs): f.append('imp:column-not-in-schema')
+    if any(len(tr) >= 2 for tr in model[2]): f.append('calls>=2')
+    if any(r[0] == 0 for r in model[1]): f.append('zero-rows')
+    if any(not r[1] for r in model[1]): f.append('imp:table-with-no-selected-column')
+    txt = ''.join(imp_text(t) for t in tabs)
+    if '\r' in txt: f.append('cr')
+    if any(ord(ch) > 127 for ch in txt): f.append('multi-byte')
+    return f
+
+
 def features(case, model):
+    if case['op'] == 'imp':
+        return imp_features(case, model)
     f = []
     t = text_of(case)
     reg = in_regime(case)
@@ -620,6 +797,8 @@ def typed_features(case, tr):
 def nontrivial(case, model):
     if isinstance(model, str):
         return model != 'BADCASE'
+    if case['op'] == 'imp':
+        return True
     return model[0] >= 1 or 'hdr' in case
 
 
@@ -665,9 +844,10 @@ def rand_cell(rng, long_p=0.1):
     k = rng.random()
     if k < 0.12: return ''
     if k < long_p + 0.12:
-        return ''.join(rng.choice('ab,"\n xyz') for _ in range(rng.randint(8, 40)))
+        return ''.join(rng.choice('ab,"\n xyz\r') for _ in range(rng.randint(8, 40)))
+    # every byte that is special to the reader, alone and in the pairs it looks ahead for (CR LF, LF CR, "" ...)
     return ''.join(rng.choice(['a', 'b', 'z', ',', '"', '\n', ' ', 'é'.encode('utf-8').decode('latin-1'),
-                               '中'.encode('utf-8').decode('latin-1'), '""'])
+                               '中'.encode('utf-8').decode('latin-1'), '""', '\r', '\r\n', '\n\r', '"\r'])
                    for _ in range(rng.randint(1, 5)))
 
 
@@ -695,17 +875,17 @@ CATS2 = [['yes', 1], ['no', 2], [U_E, 3], ['maybe so', 4]]
 CATS0 = [['', 0]]             # all keys empty: _field_size was 0 (F-C05f)
 TYPED_KINDS = {
     # name: (definition, small cell pool (first cells = the most telling ones), extra cells for the random part)
-    'leaky': (['leaky', CATS1], ['x', 'a', '', 'abc'], ['ab', 'b,c', 'q"r', 'two\nlines', U_E, ' lead', 'a' * 23]),
+    'leaky': (['leaky', CATS1], ['x', 'a', '', 'abc'], ['ab', 'b,c', 'q"r', 'two\nlines', U_E, ' lead', 'a' * 23, 'two\r\nlines', 'a\r', '\r']),
     'leaky2': (['leaky', CATS2], ['yes', 'nope', U_E + U_E, ''], ['no', 'maybe so', 'maybe', 'x', U_E, 'yes,no']),
     'leaky0': (['leaky', CATS0], ['', 'x', 'yz', 'a,b'], ['q', U_E]),
     'cat': (['cat', CATS1], ['a', 'x', '', 'ab'], ['abc', 'b', ' a']),
-    'fix': (['fix', 3], ['abcd', 'a', '', U_E + 'z'], ['abc', 'ab,cd', 'x"y']),
+    'fix': (['fix', 3], ['abcd', 'a', '', U_E + 'z'], ['abc', 'ab,cd', 'x"y', 'a\r\nb', '\r\n\r']),
     'bool': (['bool', 0, 2], ['yes', '0', '', 'q'], ['TRUE', 'off', ' y ', 'No', '2']),
     'bool1': (['bool', 1, 1], ['1', 'n', '', 'False'], ['on', 'T']),
     'int': (['int', 'int8', 7, 2], ['1', '-3', '', '300'], ['127', '128', 'x', ' 12', '1_0', '-128']),
     'int1': (['int', 'int32', 0, 1], ['12', '', '-70000', '5'], ['2147483647', '0012', '+4']),
     'int0': (['int', 'uint8', 0, 0], ['1', '255', '0', '17'], ['9', '10']),
-    'str': (['str'], ['x', '', 'p,q', 'abc'], ['q"r', 'two\nlines', U_E, 'a' * 23]),
+    'str': (['str'], ['x', '', 'p,q', 'abc'], ['q"r', 'two\nlines', U_E, 'a' * 23, 'two\r\nlines', '\r\n', 'cr\rcr']),
 }
 
 
@@ -825,6 +1005,186 @@ def rand_typed(rng, r, passes, kinds=None):
     return typ_case(hdr, tab, style, nl, crs, defs, offs, imap, eol, mem=rng.random() < 0.6)
 
 
+# ----------------------------------------------------------------------------- TC05: every special byte in the cell alphabet
+# The bytes the kernel compares against or looks ahead for: separator, quote, LF, blank, CR.  The pools above had no CR.
+CR_POOL = ['', 'a', '\r', '\r\n', '\n\r', 'x\r\ny', '"\r', '\r"', ',\r', ' \r\n']
+
+
+def gen_special_bytes(tier, rng):
+    big = tier == 'thorough'
+    # SA. exhaustive: every table over the CR pool for the small shapes x LF and CRLF line breaks x final newline x
+    #     EVERY supported chunk_row_size (a window may end between the CR and the LF of a pair, inside or outside quotes)
+    shapes = [(1, 1), (1, 2), (2, 1)] + ([(1, 3), (2, 2)] if big else [])
+    for (r, c) in shapes:
+        hdr = HDRS[c]
+        pool = CR_POOL if r * c <= 2 else CR_POOL[:8] if r * c == 3 else CR_POOL[:6]
+        for cells in itertools.product(pool, repeat=r * c):
+            if not any('\r' in x for x in cells):
+                continue                                   # section A has them
+            tab = [list(cells[i * c:(i + 1) * c]) for i in range(r)]
+            for eol in ('\n', '\r\n'):
+                for nl in (True, False):
+                    for crs in crs_values(hdr, tab, 'min', nl, extra=1, eol=eol):
+                        case = drv_case(hdr, tab, 'min', nl, crs, big_offs(c, tab, 'min'))
+                        if eol != '\n': case['eol'] = eol
+                        yield case
+    # SB. tight budgets on cells with CR (values-full in the middle of a CR LF pair, re-entry at the saved offset)
+    for cells in itertools.product(['a', '\r\n', 'x\r\ny', '\r'], repeat=2):
+        tab = [[cells[0], 'k'], ['m', cells[1]]]
+        for budget in (1, 2, 3):
+            for eol in ('\n', '\r\n'):
+                for crs in crs_values(HDRS[2], tab, 'min', True, extra=0, cap=3, eol=eol):
+                    case = drv_case(HDRS[2], tab, 'min', True, crs, [0, budget, 2 * budget])
+                    if eol != '\n': case['eol'] = eol
+                    yield case
+    # SC. the full import (HDF5, production budgets) and typed columns on cells with CR
+    for k, cells in enumerate(itertools.product(CR_POOL[1:6], repeat=2)):
+        tab = [[cells[0], 'k%d' % k], ['m', cells[1]], [cells[1], cells[0]]]
+        eol = '\r\n' if k % 2 else '\n'
+        crs = crs_values(HDRS[2], tab, 'all' if k % 3 == 0 else 'min', True, extra=0, eol=eol)
+        c = {'op': 'csv', 'hdr': HDRS[2], 'tab': tab, 'style': 'all' if k % 3 == 0 else 'min', 'nl': True, 'crs': crs[0 if k % 2 else -1]}
+        if eol != '\n': c['eol'] = eol
+        yield c
+        for kname in ('leaky', 'fix', 'str'):
+            d = TYPED_KINDS[kname][0]
+            ttab = [['r%d' % i, row[0]] for i, row in enumerate(tab)]
+            tcrs = crs_values(HDRS[2], ttab, 'min', True, extra=0, eol=eol)
+            yield typ_case(HDRS[2], ttab, 'min', True, tcrs[0], [['str'], d], eol=eol, mem=True)
+    # SD. text level, judged against csv.reader: CR / CR LF inside quoted cells of LF and CRLF files, every chunk size
+    texts = ['a,b\nx,"p\rq"\n', 'a,b\nx,"p\r\nq"\n', 'a,b\r\n"p\r\nq",y\r\n', 'a,b\r\nx,"\r\n"\r\n', 'a,b\n"\r\n",\r\n',
+             'a,b\r\n"\r","\n"\r\n"\r\n\r\n",""\r\n', 'a,b\n"x\r",q\n"""\r\n""",z', 'a,b\r\n "x",y\r\n  "\r\n",z\r\n']
+    for t in texts:
+        for crs in range(2, 12):
+            yield text_case('drv', t, crs, ['a', 'b'])
+    # SE. a lone CR outside quotes is not RFC-4180 (TEXTDATA has no CR; csv.reader takes it for a line break, the reader
+    #     keeps it as data): model-vs-implementation only
+    for t in ['a,b\nx,p\rq\n', 'a,b\nx\ry,q\n', 'a,b\rx,y\r', 'a,b\nx,y\r', 'a,b\nx,"y"\r', 'a,b\nx,"y"\rz\n', 'a,b\nx,y\r\r\n']:
+        for crs in (2, 3, 4, 50):
+            c = text_case('drv', t, crs, ['a', 'b'])
+            c.pop('exp', None)
+            yield c
+
+
+# ----------------------------------------------------------------------------- TC05: import_with_schema, several tables
+IMP_TABLES = [   # name, header, rows: the same column names occur in several tables with different data
+    ('ta', ['a', 'b'], [['1', 'x'], ['2', 'y,z']]),
+    ('tb', ['a', 'b'], [['7', 'p'], ['8', ''], ['9', 'q"r']]),
+    ('t', ['b', 'c', 'a'], [['u', 'v', 'w']]),
+    ('tab', ['k', 'a'], [['l\r\nm', 'n']]),
+]
+
+
+def imp_case(tables, crs, inc=None, exc=None, keys=None):
+    return {'op': 'imp', 'tables': tables, 'crs': crs, 'inc': inc, 'exc': exc,
+            'keys': list(keys) if keys is not None else [t['name'] for t in tables]}
+
+
+def imp_table(name, hdr, tab, style='min', nl=True, eol='\n', sch=None):
+    t = {'name': name, 'hdr': list(hdr), 'tab': [list(r) for r in tab], 'style': style, 'nl': nl}
+    if eol != '\n': t['eol'] = eol
+    if sch is not None: t['sch'] = sch
+    return t
+
+
+def imp_crs(tables, k=1):
+    """a chunk_row_size supported by every table; k = 1: each file in one window, larger k: about k windows"""
+    lo = max(min_crs(t['hdr'], t['tab'], t.get('style', 'min'), t.get('nl', True), t.get('eol', '\n'))[0] for t in tables)
+    one = max(-(-(len(imp_text(t)) + 2) // (2 * len(t['hdr']))) for t in tables)
+    return max(lo, -(-one // k))
+
+
+def sel_dicts(tables, forms):
+    """every dictionary over `tables` in which each table is unnamed (None) or named with one of `forms(table)`;
+    all-unnamed gives both None (no dictionary) and [] (empty dictionary)"""
+    per = [[None] + forms(t) for t in tables]
+    for combo in itertools.product(*per):
+        d = [[t['name'], list(v)] for t, v in zip(tables, combo) if v is not None]
+        if not d:
+            yield None
+        yield d
+
+
+def gen_import(tier, rng):
+    from harness import hot
+    big = tier == 'thorough'
+    base = [imp_table(n, h, r) for n, h, r in IMP_TABLES]
+    inc_forms = lambda t: [[], [t['hdr'][0]], [t['hdr'][-1]], list(t['hdr'])]
+    exc_forms = lambda t: [[], [t['hdr'][0]], list(t['hdr'])]
+    n = 0
+    # IA. exhaustive: 1, 2 and 3 tables x every include dictionary (each table unnamed / [] / first / last / all columns;
+    #     no dictionary / empty dictionary) x every exclude dictionary likewise
+    for T in (1, 2, 3):
+        tabs = base[:T]
+        fi = inc_forms if T < 3 else (lambda t: [[t['hdr'][0]], list(t['hdr'])])
+        fe = exc_forms if T < 3 else (lambda t: [[t['hdr'][-1]]])
+        for inc in sel_dicts(tabs, fi):
+            for exc in sel_dicts(tabs, fe):
+                n += 1
+                k = 1 if n % 4 else 3
+                yield imp_case(tabs, imp_crs(tabs, k), inc, exc)
+    # IB. order of `files` vs order of the schema / of the dictionaries; schema with tables that are not imported;
+    #     columns that are not in the schema; 4 tables
+    for perm in itertools.permutations(range(3)):
+        tabs = [base[i] for i in perm]
+        for named in ([0], [1], [2], [0, 2], [2, 0]):
+            inc = [[base[i]['name'], [base[i]['hdr'][-1]]] for i in named]
+            yield imp_case(tabs, imp_crs(tabs), inc, None, keys=[t['name'] for t in base])
+            yield imp_case(tabs, imp_crs(tabs, 2), None, inc, keys=[t['name'] for t in base])
+            yield imp_case(tabs, imp_crs(tabs), inc[:1], inc[1:] or None, keys=[t['name'] for t in base])
+    four = [imp_table(nm, h, r, sch=[h[0]]) for nm, h, r in IMP_TABLES]
+    for mask in range(16):
+        inc = [[t['name'], [t['hdr'][0]]] for i, t in enumerate(four) if mask >> i & 1]
+        yield imp_case(four, imp_crs(four), inc, None)
+        yield imp_case(four, imp_crs(four, 2), None, inc)
+    # IC. structured random: 2..5 tables of random shape and cells (CR, quotes, multi-byte), random dictionaries
+    pool_names = ['a', 'b', 'c', 'd', 'e', 'id', U_E]
+    tnames = ['p', 'pp', 'q', 'tests', 'patients', 'x1']
+    for _ in range((1200 if big else 220) * (3 if hot.changed() else 1)):
+        T = rng.randint(2, 5) if rng.random() < 0.85 else 1
+        tabs = []
+        for name in rng.sample(tnames, T):
+            c = rng.randint(1, 5)
+            hdr = rng.sample(pool_names, c)
+            tab = [[rand_cell(rng, 0.05) for _ in range(c)] for _ in range(rng.randint(0, 5))]
+            sch = None if rng.random() < 0.6 else [h for h in hdr if rng.random() < 0.6]
+            tabs.append(imp_table(name, hdr, tab, rng.choice(['min', 'min', 'all']), rng.random() < 0.6,
+                                  '\r\n' if rng.random() < 0.2 else '\n', sch))
+        def rdict(p_named):
+            k = rng.random()
+            if k < 0.25: return None
+            d = [[t['name'], [h for h in t['hdr'] if rng.random() < 0.6]] for t in tabs if rng.random() < p_named]
+            rng.shuffle(d)
+            return d
+        keys = [t['name'] for t in tabs] + (['other'] if rng.random() < 0.3 else [])
+        rng.shuffle(keys)
+        yield imp_case(tabs, imp_crs(tabs, rng.choice([1, 1, 2, 4])), rdict(0.5), rdict(0.4), keys)
+    # ID. change-directed: a new small literal K -> K-1, K, K+1 tables / columns, dictionaries naming K-1 of them
+    for K in hot.hot_sizes():
+        if K > 8:
+            continue
+        for T in sorted({max(1, K - 1), K, K + 1}):
+            tabs = [imp_table('t%d' % i, ['c%d' % j for j in range(max(1, K))], [['%d.%d' % (i, j) for j in range(max(1, K))]])
+                    for i in range(T)]
+            for m in sorted({0, 1, max(0, T - 1), T}):
+                d = [[t['name'], [t['hdr'][-1]]] for t in tabs[:m]]
+                yield imp_case(tabs, imp_crs(tabs), d, None)
+                yield imp_case(tabs, imp_crs(tabs), None, d)
+    # IE. calls the property does not speak about (model-vs-implementation only): a dictionary naming a table that is
+    #     not imported / a column the table does not have, a table without schema, a reserved column name, no file
+    two = base[:2]
+    yield imp_case(two, 8, [['tz', ['a']]], None)
+    yield imp_case(two, 8, None, [['tz', ['a']]])
+    yield imp_case(two, 8, [['ta', ['zz']]], None)
+    yield imp_case(two, 8, None, [['tb', ['a', 'zz']]])
+    yield imp_case(two, 8, [['t', ['a']]], None, keys=['ta', 'tb', 't'])
+    yield imp_case(two, 8, None, None, keys=['ta'])
+    yield imp_case(two, 8, None, None, keys=['tb', 'zz'])
+    yield imp_case([], 8, None, None, keys=['ta'])
+    yield imp_case([base[0], imp_table('tb', ['a', 'j_valid_from'], [['1', '2']])], 8, None, None)
+    yield imp_case([imp_table('tb', ['a', 'b'], [['1', '2']], sch=['a', 'j_valid_to']), base[0]], 8, None, None)
+    yield imp_case(two, 1, [['ta', ['a']]], None)           # window below the regime
+
+
 def gen(tier, rng):
     big = tier == 'thorough'
     # A. exhaustive small tables x every supported chunk_row_size x final newline, generous budgets
@@ -908,6 +1268,12 @@ def gen(tier, rng):
     # T. typed schemas: importer state carried over >= 3 reader passes (SC05)
     for case in gen_typed(tier, rng):
         yield case
+    # S. every special byte in the cell alphabet: CR, CR LF (TC05)
+    for case in gen_special_bytes(tier, rng):
+        yield case
+    # I. import_with_schema over several tables, dictionaries naming only some of them (TC05)
+    for case in gen_import(tier, rng):
+        yield case
     # F. text-level: unquoted blanks after separators / line breaks (skipped by the reader), CRLF
     blanks = ['a,b\nx,y\n z,w\n', 'a,b\nx, y\n  z,  w\nq,r\n', 'a,b\n x ,y \n,  \n', 'a,b\nx,y\n  "z",w\n',
               'a,b\n  z,w\nx,y\n  z,w\nx,y\n  z,w\n', 'a\n x\n  y\nz\n', 'a,b\nx,   \n   ,y\n']
@@ -935,7 +1301,36 @@ def gen(tier, rng):
                 yield drv_case(hdr, tab, 'min', True, crs, big_offs(c, tab, 'min'))
 
 
+def imp_shrink(case):
+    tabs = case['tables']
+    def drop(d, name):
+        return None if d is None else [kv for kv in d if kv[0] != name]
+    for i, t in enumerate(tabs):
+        if len(tabs) > 1:
+            c = dict(case); c['tables'] = tabs[:i] + tabs[i + 1:]
+            c['inc'], c['exc'] = drop(case.get('inc'), t['name']), drop(case.get('exc'), t['name']); yield c
+        for r in range(len(t['tab'])):
+            t2 = dict(t); t2['tab'] = t['tab'][:r] + t['tab'][r + 1:]
+            c = dict(case); c['tables'] = tabs[:i] + [t2] + tabs[i + 1:]; yield c
+        for r, row in enumerate(t['tab']):
+            for j, cell in enumerate(row):
+                if len(cell) > 1:
+                    t2 = dict(t); t2['tab'] = [list(x) for x in t['tab']]; t2['tab'][r][j] = cell[:len(cell) // 2]
+                    c = dict(case); c['tables'] = tabs[:i] + [t2] + tabs[i + 1:]; yield c
+    for k in ('inc', 'exc'):
+        d = case.get(k)
+        if d is not None:
+            c = dict(case); c[k] = None; yield c
+            for i in range(len(d)):
+                c = dict(case); c[k] = d[:i] + d[i + 1:]; yield c
+    c = dict(case); c['crs'] = case['crs'] + 1; yield c
+
+
 def shrink(case):
+    if case['op'] == 'imp':
+        for c in imp_shrink(case):
+            yield c
+        return
     if 'tab' not in case:
         return
     tab, hdr = case['tab'], case['hdr']
@@ -971,13 +1366,26 @@ RULE = ('exhaustive small scope: every table over a 9-cell grammar pool (empty, 
         'read one, two and three per pass with the cell pattern rotating through the pool (long histories); seeded random '
         'tables of 2..5 typed columns x 3..24 rows read in 3..12 passes; lengths / pass counts around every new small literal of the '
         'tree under test; 1 typed case in 8 (random part: 4 in 10) writes into a real HDF5 dataframe (~30 ms), the others into a '
-        'casting, copying memory stand-in. Non-trivial = '
+        'casting, copying memory stand-in. SPECIAL BYTES (TC05): the cell alphabets hold every byte the kernel compares against or looks '
+        'ahead for - separator, quote, LF, blank and CR, alone and in pairs (CR LF, LF CR, quote CR, CR quote): every table over a '
+        '10-cell CR pool for shapes 1x1, 1x2, 2x1 (thorough: 1x3, 2x2) x LF and CRLF line breaks x final newline x EVERY supported '
+        'chunk_row_size; 1/2/3-byte budgets on CR cells; full HDF5 and typed imports of CR cells; CR / CR LF inside quoted cells at '
+        'text level against csv.reader; a lone CR outside quotes (not RFC-4180) model-vs-implementation only. SEVERAL TABLES (TC05, '
+        'op=imp, importer.import_with_schema into a real HDF5 dataset): 1, 2 and 3 tables x EVERY include dictionary (no dictionary, '
+        'empty dictionary, each table unnamed / [] / first / last / all columns) x EVERY exclude dictionary likewise (3 tables: reduced '
+        'forms), all orders of 3 files against schema and dictionary order, schema tables that are not imported, columns that are not '
+        'in the schema, 4 tables x every subset named, the same column names in several tables; seeded random 1..5 tables with random '
+        'dictionaries; table / column counts around every new small literal; malformed calls (dictionary naming a table that is not '
+        'imported or a column the table lacks, table without schema, reserved column name, no file) model-vs-implementation only. Non-trivial = '
         'the call parses at least the header of a generated table.')
-TRUSTED = ['csv.DictReader header sniffing (number of columns, field names), np.fromfile, guess_encoding: exercised, not modelled',
+TRUSTED = ['load_schema (JSON schema file -> importer definitions), Session.open_dataset / require_dataframe: exercised by op=imp, not modelled',
+           'csv.DictReader header sniffing (number of columns, field names), np.fromfile, guess_encoding: exercised, not modelled',
            'HDF5 field storage (write_part = append): property C01; op=drv uses an append-only stand-in, op=csv the real fields, '
            'op=typ the real fields or (mem) a stand-in that casts to the field dtype and copies on write_part as h5py does',
            "Python's csv.reader is the reference parser for text-level cases; table-level cases are their own reference"]
 ASSUMPTIONS = ['stop_after_rows is None', 'column names are distinct',
+               'op=imp: table names (keys of files / of the dictionaries) are distinct (Python dicts), every column is a string column, '
+               'the destination dataset is new (overwrite irrelevant), one timestamp',
                'typed columns (op=typ): string, fixed string, categorical with and without free text, bool, int8..int32 - what a '
                'cell text DENOTES is property C06; here the typed importers are exercised as state machines over the reader passes '
                '(float / date / datetime importers keep no state between passes beyond their append position and are covered by C06)',
